@@ -110,6 +110,10 @@ Example C15_ex_shape :
   /\ g_allowed (export g_state) <> st_allowed g_state.
 Proof. vm_compute. repeat split; discriminate. Qed.
 
+(* the invariant holds in g_state (checked part by part on the computed state) *)
+Example C15_ex_state_Inv : Inv g_state.
+Proof. exact g_state_Inv. Qed.
+
 Example C15_ex_valid : validate (export g_state) = true.
 Proof. vm_compute. reflexivity. Qed.
 
